@@ -17,6 +17,7 @@ from cv.tlaparse import printed_values
 from cv.tlc import run_tlc, must_ok
 
 LEVEL = "model_checking"
+TOL_SYNTH = 1e-9         # of the array's scale (observed <= 1e-12: summation order, weight normalisation)
 NAMES = ("bulk_modulus_voigt_reuss_hill", "shear_modulus_voigt_reuss_hill", "primary_velocities", "secondary_velocities", "volumes")
 
 
@@ -203,7 +204,9 @@ def main(ctx, replay=None):
                 for k, a in base.items():
                     b = snap.get(k)
                     scale = float(numpy.nanmax(numpy.abs(a))) or 1.0
-                    if b is None or b.shape != a.shape or not numpy.allclose(a, b, rtol=0, atol=1e-7 * scale, equal_nan=True):
+                    if b is not None and b.shape == a.shape and numpy.any(numpy.isfinite(a)):
+                        ctx.cov["max_dev_synthetic"] = max(ctx.cov.get("max_dev_synthetic", 0.0), float(numpy.nanmax(numpy.abs(a - b))) / scale)
+                    if b is None or b.shape != a.shape or not numpy.allclose(a, b, rtol=0, atol=TOL_SYNTH * scale, equal_nan=True):
                         dev = float(numpy.nanmax(numpy.abs(a - b))) / scale if b is not None and b.shape == a.shape else float("nan")
                         ctx.violation(f"re-presentation {names} changes {k} by {dev:.3g} (relative to its scale)", {**case, "quantity": k, "dev": dev},
                                       {**sig, "clause": "differs", "reorder": reorder})
